@@ -44,7 +44,8 @@ def run(verdict, exe, tier, seed, tag="C05bytes"):
         rp = [l for l in g["lines"] if l["cmd"] == "reparse"][0]
         want = "s=%s\nl = {%s, \"z\"}\nt %s {\n  v=\"d\"\n}\n" % (encode(s), encode(s), encode(s))
         probs = []
-        if pr[0]["text"] != want:
+        from .printnorm import same
+        if "\n" not in s and not same(want.split("\n"), pr[0]["text"].split("\n")) or ("\n" in s and pr[0]["text"] != want):
             probs.append("printed %r, the printer model says %r" % (pr[0]["text"][:120], want[:120]))
         if rp["ret"] != 0:
             probs.append("printed text rejected by the parser: %r" % pr[0]["text"][:120])
